@@ -2,5 +2,5 @@ From Coq Require Import ExtrOcamlBasic NArith ZArith List.
 From LV Require Import lib.Conv model.Wlru model.VecPersist model.VecIndex spec.FcSpec spec.StreamSpec model.QuorumIdx spec.QuorumSpec.
 Definition bcache_new : N -> Z -> option bcache := @Wlru.new N (list N).
 Extraction "model.ml" conv_roots init add_or_drop vs_init vs_add vs_flush vs_drop p_init p_view p_add p_flush p_drop p_restart enc_bi ce_new ce_add ce_flush ce_drop ce_restart ce_reset_same ce_reset_fresh ce_query ce_merged ce_view bcache_new fc_query fc_res fcache_new merged quorum_of nbr
-  alookup anc_table fc_spec_row merged_spec_t wf_evb
+  alookup anc anc_table fc_spec_row merged_spec_t wf_evb
   qi_new qi_process qi_process_id qi_medians qi_metric diff_family median_spec metric_spec obs_of_spec seq_of.
